@@ -301,6 +301,7 @@ class MessagePackRpc(MessagePackDocument):
         elif body_class:
             ctx.in_object = self._doc_to_object(ctx,
                                     body_class, ctx.in_body_doc, self.validator)
+            self._check_in_object(body_class, ctx.in_object, ctx.in_body_doc)
 
         else:
             ctx.in_object = []
